@@ -82,7 +82,7 @@ impl<F: FileFilter> DirectoryScanner<F> {
         root: &Path,
         structure_config: Option<&StructureScanConfig>,
     ) -> ScanResult {
-        let mut state = StructureScanState::new(structure_config);
+        let mut state = StructureScanState::new(structure_config, root);
         // Use filter_entry to skip excluded directories entirely (prunes subtree)
         let walker = WalkDir::new(root).into_iter().filter_entry(|e| {
             if e.file_type().is_dir()
@@ -120,7 +120,7 @@ impl<F: FileFilter> DirectoryScanner<F> {
     ) -> ScanResult {
         use ignore::WalkBuilder;
 
-        let mut state = StructureScanState::new(structure_config);
+        let mut state = StructureScanState::new(structure_config, root);
         // Clone config: filter_entry closure must be 'static, but structure_config is a borrowed reference
         let config_for_filter = structure_config.cloned();
         let walker = WalkBuilder::new(root)
@@ -161,6 +161,19 @@ impl<F: FileFilter> DirectoryScanner<F> {
     }
 }
 
+/// Depth of a scan root below the project root: directory depth is measured from the project
+/// root (README: "relative to scope, not project root" is the opt-in), so checking `src` alone
+/// must see the same depths as checking the whole project. A root outside the working
+/// directory (kept absolute) counts from itself.
+fn project_depth(root: &Path) -> usize {
+    if root.is_absolute() {
+        return 0;
+    }
+    root.components()
+        .filter(|c| matches!(c, std::path::Component::Normal(_)))
+        .count()
+}
+
 impl<F: FileFilter + Send + Sync> FileScanner for DirectoryScanner<F> {
     fn scan(&self, root: &Path) -> Result<Vec<PathBuf>> {
         Ok(self.scan_impl(root))
@@ -181,14 +194,17 @@ struct StructureScanState<'a> {
     result: ScanResult,
     dir_entries: HashMap<PathBuf, DirStats>,
     structure_config: Option<&'a StructureScanConfig>,
+    /// Depth of the scan root below the project root (added to every recorded depth).
+    root_depth: usize,
 }
 
 impl<'a> StructureScanState<'a> {
-    fn new(structure_config: Option<&'a StructureScanConfig>) -> Self {
+    fn new(structure_config: Option<&'a StructureScanConfig>, root: &Path) -> Self {
         Self {
             result: ScanResult::default(),
             dir_entries: HashMap::new(),
             structure_config,
+            root_depth: project_depth(root),
         }
     }
 
@@ -222,7 +238,7 @@ impl<'a> StructureScanState<'a> {
                 .dir_entries
                 .entry(parent.to_path_buf())
                 .or_insert_with(|| DirStats {
-                    depth: if depth > 0 { depth - 1 } else { 0 },
+                    depth: self.root_depth + depth.saturating_sub(1),
                     ..Default::default()
                 });
             parent_stats.file_count += 1;
@@ -404,7 +420,7 @@ impl<'a> StructureScanState<'a> {
         self.dir_entries
             .entry(path.to_path_buf())
             .or_insert_with(|| DirStats {
-                depth,
+                depth: self.root_depth + depth,
                 ..Default::default()
             });
 
@@ -417,7 +433,7 @@ impl<'a> StructureScanState<'a> {
                 .dir_entries
                 .entry(parent.to_path_buf())
                 .or_insert_with(|| DirStats {
-                    depth: depth - 1,
+                    depth: self.root_depth + depth - 1,
                     ..Default::default()
                 });
             parent_stats.dir_count += 1;
